@@ -192,6 +192,11 @@ func (e *FnEnc) pureCall(v ssa.Value, name string, args []Val) {
 	}
 	var sorts, ts []string
 	for _, a := range args {
+		if a.T == "" && a.Loc != nil {
+			// the address of a field or element: give it its integer identity
+			env := e.specEnv(e.cur, e.initState, nil)
+			a = env.addrOf(a)
+		}
 		if a.T == "" {
 			e.havocVal(v)
 			return
@@ -200,6 +205,7 @@ func (e *FnEnc) pureCall(v ssa.Value, name string, args []Val) {
 		ts = append(ts, a.T)
 	}
 	e.W.pureResultSort[name] = e.sorts().SortOf(v.Type())
+	e.W.pureResultType[name] = v.Type()
 	x := e.setVal(v, e.W.UF("pure."+mangle(name), sorts, e.sorts().SortOf(v.Type()), ts...))
 	e.assumeValid(x)
 	e.note("A6 pure function (uninterpreted): " + name)
@@ -352,13 +358,22 @@ func (e *FnEnc) appendBuiltin(v ssa.Value, c *ssa.CallCommon, args []Val) {
 }
 
 // havocAll: an unknown computation may change every heap cell except non-escaped locals (A8).
-func (e *FnEnc) havocAll(why string) {
+func (e *FnEnc) havocAll(why string, args ...Val) {
+	// a callee that is handed a slice may reorder or overwrite its elements, whatever they are
+	given := map[string]bool{}
+	for _, a := range args {
+		if a.Ty != nil {
+			if st, ok := a.Ty.Underlying().(*types.Slice); ok {
+				given[e.sorts().ArrHeap(st.Elem()).Name] = true
+			}
+		}
+	}
 	for _, name := range sortedKeys(e.heapVars) {
 		hv := e.heapVars[name]
 		if name == AllocVar.Name || strings.HasPrefix(name, "VIS.") || strings.HasPrefix(name, "POS.") || strings.HasPrefix(name, "GH.") {
 			continue
 		}
-		if immutableHeap(name) {
+		if immutableHeap(name) && !given[name] {
 			continue
 		}
 		old := e.heap(hv)
@@ -378,7 +393,7 @@ func (e *FnEnc) havocAll(why string) {
 func (e *FnEnc) havocCall(v ssa.Value, name string, args []Val, in ssa.Instruction) {
 	if !e.W.NoHeapEffect(name) {
 		e.note("havoc (unknown callee: result and all escaped heap cells unconstrained): " + name)
-		e.havocAll(name)
+		e.havocAll(name, args...)
 	} else {
 		e.note("A6 library call assumed not to modify existing objects (result unconstrained): " + name)
 	}
@@ -797,6 +812,9 @@ func immutableHeap(name string) bool {
 		if strings.HasPrefix(name, p) {
 			return true
 		}
+	}
+	if strings.HasPrefix(name, "A.ref.") {
+		return true
 	}
 	return false
 }
